@@ -27,7 +27,7 @@ Fixpoint sty_of (t: ty) : option TyModel.sty :=
   | TSet a => option_map (TyModel.SSet false) (sty_of a)
   | TDict a => option_map (TyModel.SDict TyModel.SStrT) (sty_of a)
   | TMap k a => match sty_of k, sty_of a with Some sk', Some sa => Some (TyModel.SDict sk' sa) | _, _ => None end
-  | TWrap a => sty_of a
+  | TWrap a | TAnn _ a => sty_of a
   | TTuple ts => option_map TyModel.STupleFix (all_some (map sty_of ts))
   | TUnion [a; TNone] => option_map TyModel.SOpt (sty_of a)
   | TLeaf _ _ _ => Some (TyModel.SLeaf "leaf")
